@@ -68,14 +68,22 @@ func (p *Path) reach(fr *Frame, s, pred *ssa.BasicBlock, depth int) (mergeRes, b
 		}
 		return mergeRes{join: s, vals: vals}, true
 	}
-	// single predecessor: speculate through the block
+	return p.through(fr, s, 0, depth)
+}
+
+// through speculates the instructions of s from index from on (the phis
+// before it have been assigned) up to the next join.
+func (p *Path) through(fr *Frame, s *ssa.BasicBlock, from int, depth int) (mergeRes, bool) {
+	if depth > 8 {
+		return mergeRes{}, false
+	}
 	n := len(s.Instrs)
-	for _, in := range s.Instrs[:n-1] {
+	for _, in := range s.Instrs[from : n-1] {
 		if !pureInstr(in) {
 			return mergeRes{}, false
 		}
 	}
-	for _, in := range s.Instrs[:n-1] {
+	for _, in := range s.Instrs[from : n-1] {
 		if _, isDbg := in.(*ssa.DebugRef); isDbg {
 			continue
 		}
@@ -95,7 +103,22 @@ func (p *Path) reach(fr *Frame, s, pred *ssa.BasicBlock, depth int) (mergeRes, b
 		if c.IsFalse() {
 			return p.reach(fr, s.Succs[1], s, depth+1)
 		}
-		return p.mergeIf(fr, s, c, depth+1)
+		r, ok := p.mergeIf(fr, s, c, depth+1)
+		if !ok {
+			return mergeRes{}, false
+		}
+		// the inner diamond is closed at r.join: enter it with the merged
+		// phi values and keep going towards the outer join
+		nphi := 0
+		for _, in := range r.join.Instrs {
+			ph, isPhi := in.(*ssa.Phi)
+			if !isPhi {
+				break
+			}
+			nphi++
+			fr.Locals[ph] = r.vals[ph]
+		}
+		return p.through(fr, r.join, nphi, depth+1)
 	}
 	return mergeRes{}, false
 }
